@@ -212,9 +212,12 @@ def _(c):
     inv(c)
     c.modifies("self.state", "self._txn_partitions", "self._txn_consumer_group",
                "self._transaction_waiter.state", "self._transaction_waiter.nres")
-    # internal: only the EndTxn handler and the empty-transaction shortcut call it, while ending
-    c.requires("self.state == TransactionState.COMMITTING_TRANSACTION or self.state == TransactionState.ABORTING_TRANSACTION",
-               "a-transaction-is-ending")
+    # only the EndTxn handler and the empty-transaction shortcut call it, while ending; should an error transition
+    # (abortable / fatal) have overtaken the commit, the table refuses READY and nothing changes
+    c.requires("self.state != TransactionState.UNINITIALIZED", "producer-id-was-initialised")
+    c.raises("not-ending", "AssertionError",
+             when="not TransactionState.is_transition_valid(self.state, TransactionState.READY)",
+             ensures=[("no-effect", "unchanged(self)"), ("futures-untouched", "same_heap('Future')")], exact=True)
     c.raises("work-still-pending", "AssertionError",
              when="not (is_empty(self._pending_txn_partitions) and len(self._pending_txn_offsets) == 0)",
              ensures=[("no-effect", "unchanged(self)"), ("futures-untouched", "same_heap('Future')")], exact=True)
